@@ -72,3 +72,10 @@ func (syncer *Syncer) VerifFetchState() (ok bool, total, free, bad, running, pen
 	}
 	return
 }
+
+// VerifAwaitsFirstHashSet reports whether a block fetcher exists that has not yet taken its first
+// hash set (it is then blocked outside its main select loop: in init() or in getNewHashSet()).
+func (syncer *Syncer) VerifAwaitsFirstHashSet() bool {
+	bf := syncer.blockFetcher
+	return bf != nil && bf.isRunning && bf.curHashSet == nil
+}
